@@ -8,7 +8,7 @@ import lincheck
 FAMS = ["border", "full", "two", "empty", "layer", "layerfull", "three"]
 # extra families per property: chain = three consecutive borders, the middle one is emptied while its full predecessor splits; pair = interior root over two nearly empty borders (both emptied concurrently, root collapse);
 # links = layer-0 border that holds only next-layer links (inserts of short keys land in a border that gave the scan no value)
-EXTRA = {"C01": ["pair"], "C08c": ["pair", "chain"], "C09": ["pair", "chain"], "C04": ["links"], "C06": ["links"], "C10": ["links", "pair"]}
+EXTRA = {"C01": ["pair"], "C08c": ["pair", "chain"], "C09": ["pair", "chain"], "C04": ["links", "pair"], "C06": ["links"], "C10": ["links", "pair"]}
 
 
 def plan(prop, tier):
@@ -22,6 +22,9 @@ def plan(prop, tier):
             J.append((fam, "pre1", ["scenarios=%d" % ((8 if q else 40) // (2 if big else 1)), "threads=2", "opsper=%d" % (1 if big else 2)]))
             if not big:
                 J.append((fam, "pct", ["scenarios=%d" % (12 if q else 60), "runs=%d" % (10 if q else 30), "threads=3", "opsper=2"]))
+        # both borders under the interior root emptied at the same time (collapse while the sibling that becomes root is being deleted itself)
+        J.append(("pair", "pre1", ["scenarios=%d" % (6 if q else 30), "threads=2", "opsper=2", "directed=4"]))
+        J.append(("pair", "pct", ["scenarios=%d" % (6 if q else 30), "runs=%d" % (15 if q else 40), "threads=3", "opsper=2", "directed=4"]))
         if prop == "C01":   # lookup of a leaf's greatest key vs removes / re-inserts of other keys of that leaf
             for fam in ["border", "full", "two"]:
                 J.append((fam, "pre1", ["scenarios=%d" % (6 if q else 30), "threads=2", "opsper=2", "directed=2"]))
@@ -42,6 +45,12 @@ def plan(prop, tier):
                 J.append((fam, "pct", ["scenarios=%d" % (12 if q else 60), "runs=%d" % (10 if q else 30), "threads=3", "opsper=2"] + sc))
         # directed scenarios: reader = scan that ends inside a node (limited / bounded / right-to-left), writer = remove + insert that reuses
         # the freed slot, remove + re-insert, insert + remove; every single preemption
+        # scans of one leaf (whole leaf / greatest-key query) vs removes of other keys of the same leaf (reader side of the permutation word)
+        for fam in ["border", "full"]:
+            J.append((fam, "pre1", ["scenarios=%d" % (6 if q else 30), "threads=2", "opsper=2", "scans=100", "directed=2"]))
+        # a full scan while the border it has just read is emptied and unlinked and one of its keys is inserted again (F17)
+        J.append(("pair", "pre1", ["scenarios=%d" % (8 if q else 30), "threads=2", "opsper=2", "scans=100", "directed=3"]))
+        J.append(("pair", "pct", ["scenarios=%d" % (8 if q else 30), "runs=%d" % (15 if q else 40), "threads=3", "opsper=2", "scans=100", "directed=3"]))
         for fam in ["border", "full", "two", "layer", "layerfull"]:
             J.append((fam, "pre1", ["scenarios=%d" % (10 if q else 40), "threads=2", "opsper=2", "scans=100", "directed=1"]))
             J.append((fam, "pct", ["scenarios=%d" % (10 if q else 40), "runs=%d" % (15 if q else 40), "threads=2", "opsper=2", "scans=100", "directed=1"]))
@@ -56,6 +65,8 @@ def plan(prop, tier):
             # directed: lookup of the leaf's greatest key (last rank) vs removes / re-inserts of other keys of the leaf
             J.append((fam, "pre1", ["scenarios=%d" % (8 if q else 30), "threads=2", "opsper=2", "directed=2"]))
             J.append((fam, "pct", ["scenarios=%d" % (8 if q else 30), "runs=%d" % (10 if q else 30), "threads=3", "opsper=2", "directed=2"]))
+            # the same with scans as readers (whole leaf, and greatest-key query right-to-left)
+            J.append((fam, "pre1", ["scenarios=%d" % (8 if q else 30), "threads=2", "opsper=2", "scans=100", "directed=2"]))
     elif prop == "C15c":
         for fam in ["border", "full", "two", "layer"]:
             J.append((fam, "random", ["scenarios=%d" % (25 if q else 120), "runs=%d" % (12 if q else 30), "threads=2", "opsper=2"]))
@@ -68,9 +79,9 @@ def plan(prop, tier):
     return ["seed=%d" % s], J
 
 
-ON = {"C13c": ["LIN", "QUIES"], "C15c": ["LIN"], "C19c": ["LIN"], "C01": ["LIN"], "C04": ["LIN", "SCAN"], "C06": ["LIN", "SCAN", "NV"], "C08c": ["LIN", "QUIES"], "C09": ["QUIES"], "C10": ["LIN", "SCAN", "NV"]}
+ON = {"C13c": ["LIN", "QUIES"], "C15c": ["LIN"], "C19c": ["LIN", "SCAN"], "C01": ["LIN"], "C04": ["LIN", "SCAN"], "C06": ["LIN", "SCAN", "NV"], "C08c": ["LIN", "QUIES"], "C09": ["QUIES"], "C10": ["LIN", "SCAN", "NV"]}
 # which failure kinds count for which property (others are somebody else's property and are only noted)
-MINE = {"C13c": {"not-linearizable", "quiescent-structure"}, "C15c": {"not-linearizable"}, "C19c": {"not-linearizable"}, "C01": {"not-linearizable"}, "C04": {"not-linearizable", "scan-shape"}, "C06": {"scan-nv-misses-insert", "scan-nv-empty"},
+MINE = {"C13c": {"not-linearizable", "quiescent-structure"}, "C15c": {"not-linearizable"}, "C19c": {"not-linearizable", "scan-shape"}, "C01": {"not-linearizable"}, "C04": {"not-linearizable", "scan-shape"}, "C06": {"scan-nv-misses-insert", "scan-nv-empty"},
         "C08c": {"quiescent-structure", "not-linearizable"}, "C09": {"quiescent-structure"}, "C10": {"not-linearizable", "scan-shape", "scan-nv-misses-insert"}}
 
 
@@ -343,7 +354,7 @@ def run_steps4(chk, prop, tier, pk, progs=None):
         open(tr, "w").write(out)
         cfg = write_cfg(os.path.join(BUILD, "cfg", "tc4_%s_%d.cfg" % (pk, pi)), constants={"F": 15, "Keys": keys, "Threads": "{0, 1, 2}", "Prog": "<- ProgT",
                         "Init1": "{2}", "Init2": "{18}", "UNLOCK_BEFORE_PARENT": "FALSE", "NO_INS_ON_INSERT": "FALSE", "NO_INS_ON_DELETE": "FALSE",
-                        "SCAN_NO_FINAL": "FALSE", "SCAN_NO_ENTRY_CHECK": "FALSE"},
+                        "SCAN_NO_FINAL": "FALSE", "SCAN_NO_ENTRY_CHECK": "FALSE", "SCAN_DUP": "FALSE"},
                         invariants=["LinOK", "ScanOK", "NvOK", "RootOpsOK", "Quiescent"], constraint="Record")
         res = tlc("TraceConc4", cfg, env={"TRACE": tr}, workers=1, timeout=600, deque=True)
         chk.add_tlc(res, "step-level conformance of split under a parent / interior insert, shift-delete / collapse vs new root, programs %s, border %d full (%d runs, %d events)" % (prog, full, 2 * nruns, len(lines)))
